@@ -177,10 +177,16 @@ def check_property(pid, tier, seed):
         tdir = os.path.join(scratch, "traces")
         os.makedirs(tdir)
         shards = tcfg.get("shards", 12)
+        genv = dict(GOENV)
+        if prop.get("race"):
+            genv["GORACE"] = "halt_on_error=0 exitcode=66"
         p = subprocess.run([drv, "gen", "-prop", pid, "-tier", tier, "-seed", str(seed), "-out", tdir,
                             "-shards", str(shards), "-steps", str(tcfg["steps"])],
-                           capture_output=True, text=True, env=GOENV, timeout=tcfg.get("gen_timeout", 1800))
-        if p.returncode != 0:
+                           capture_output=True, text=True, env=genv, timeout=tcfg.get("gen_timeout", 1800))
+        race_report = None
+        if prop.get("race") and (p.returncode == 66 or "WARNING: DATA RACE" in p.stderr):
+            race_report = p.stderr[-6000:]
+        elif p.returncode != 0:
             raise Infra("driver gen failed:\n" + p.stdout[-3000:] + p.stderr[-3000:])
         shard_files = sorted(os.path.join(tdir, f) for f in os.listdir(tdir) if f.endswith(".ndjson"))
 
@@ -200,6 +206,12 @@ def check_property(pid, tier, seed):
                 results.append((futs[f], f.result()))
             if mfut:
                 mres = mfut.result()
+        negs = []
+        for nm in tcfg.get("neg_models", []):
+            r = run_model(specdir, nm[0], nm[1], 4, 600)
+            if r["ok"] or "is violated" not in r["tail"]:
+                raise Infra("negative-control model %s/%s did not produce the expected counterexample" % nm)
+            negs.append(dict(module=nm[0], cfg=nm[1], counterexample_found=True))
         for m in mres:
             if not m["ok"]:
                 raise Infra("small-format model %s/%s failed (a fault of the specification, not of the code):\n%s"
@@ -268,6 +280,13 @@ def check_property(pid, tier, seed):
         if len(vio_paths) > 20:
             log("  ... and %d more distinct violating steps" % (len(vio_paths) - 20))
 
+        if race_report:
+            rp = os.path.join(REPLAYS, "%s-race-%d.txt" % (pid, seed))
+            os.makedirs(REPLAYS, exist_ok=True)
+            open(rp, "w").write(race_report)
+            vio_paths.append(rp)
+            log("VIOLATION property=%s replay=%s" % (pid, rp))
+            log("  the race detector reported a data race while goroutines ran pure operations on shared operands")
         if not samples:
             for path, res in sorted(results)[:1]:
                 for x in list(open(path))[:2]:
@@ -290,6 +309,8 @@ def check_property(pid, tier, seed):
                 "small_format_models": [{k: m[k] for k in ("module", "cfg", "states", "transitions", "wall_s")} for m in mres],
                 "trace_steps": steps, "steps_per_op": per_op, "undecided_steps": undecided,
                 "known_finding_steps": len(known),
+                "negative_controls": negs,
+                "race_detector": ("on, no report" if prop.get("race") and not race_report else ("REPORTED" if race_report else "off")),
             },
             "assumptions": prop.get("assumptions", []) + [
                 "TLC 1.8 evaluates the TLA+ semantic functions correctly (BigNat is cross-checked against native "
